@@ -317,7 +317,22 @@ impl Gen {
                 let rd = if self.rng.chance(1, 3) { self.sim.sym(&self.fm_cfg().create_farm_fee.denom) } else { "uom".to_string() };
                 let id = if self.rng.chance(1, 2) { Some(self.fresh_id("g")) } else { None };
                 let epochs = 1 + self.rng.below(5);
-                self.mk_farm(&owner, &lp, &rd, 2000, epochs, id, 1);
+                if self.rng.chance(1, 3) {
+                    // under-funded variants: only the fee, only the reward, one unit short (all must be refused)
+                    let cfg = self.fm_cfg();
+                    let fee = (self.sim.sym(&cfg.create_farm_fee.denom), cfg.create_farm_fee.amount.u128());
+                    let cur = self.sim.current_epoch().unwrap_or(0);
+                    let asset = (rd.clone(), 2000 * epochs as u128);
+                    let funds = match self.rng.below(4) {
+                        0 => vec![(fee.0.clone(), fee.1.max(1))],
+                        1 => vec![asset.clone()],
+                        2 => vec![(rd.clone(), asset.1 + fee.1 - 1)],
+                        _ => vec![(rd.clone(), fee.1 + 1)],
+                    };
+                    self.tx(&owner, SMsg::FmCreateFarm(SFarmParams { lp, start: Some(cur + 1), end: Some(cur + 1 + epochs), asset, id }), funds);
+                } else {
+                    self.mk_farm(&owner, &lp, &rd, 2000, epochs, id, 1);
+                }
             }
             18 => {
                 // let farms expire: jump far ahead, then someone tries to close / a new farm sweeps them
@@ -640,7 +655,7 @@ impl Gen {
         for _ in 0..n {
             let k = self.rng.below(7);
             let u = self.rng.pick(&users[1..]).clone();
-            let fault = self.rng.below(6);
+            let fault = if self.rng.chance(1, 3) { 0 } else { self.rng.below(6) };
             let with_fault = self.rng.chance(4, 5);
             if with_fault { self.push(SOp::SetFault(fault)); }
             match self.rng.below(12) {
